@@ -21,6 +21,7 @@ deriving DecidableEq, Repr
 inductive ProbeMode
   | ok | fail | hang
   | status (code : Nat)      -- the target answers the probe with this status
+  | delay (ns : Nat)         -- the target answers the probe with 200 after `ns`
 deriving DecidableEq, Repr
 
 /-- `check`: a probe succeeds iff the status is 2xx -/
@@ -30,6 +31,7 @@ def statusOk (code : Nat) : Bool := 200 ≤ code && code ≤ 299
 inductive Loop
   | idle                       -- waiting for the next tick
   | hanging (until_ : Nat)     -- a probe is outstanding and will time out at `until_`
+  | answering (at_ : Nat)      -- a probe is outstanding and will be answered with 200 at `at_` (before its timeout)
   | parked (changed became : Bool)   -- parked at probe.updated (hook sits before the refresh)
 deriving DecidableEq, Repr
 
@@ -77,6 +79,7 @@ structure Obj where
   gate    : Nat
   split   : Option Split := none
   rt      : Nat := 0                  -- target (response header) timeout in ns; 0 = none
+  hct     : Nat := 300000000          -- health-check timeout in ns
 deriving Repr
 
 inductive RPhase
@@ -265,6 +268,9 @@ def probeFire (w : World) (tid : Nat) : World :=
     | .fail => probeComplete w1 tid false
     | .status code => probeComplete w1 tid (statusOk code)
     | .hang => setT w1 { t with loop := .hanging (w.now + t.hcTimeout) }
+    | .delay d =>
+      if d < t.hcTimeout then setT w1 { t with loop := .answering (w.now + d) }
+      else setT w1 { t with loop := .hanging (w.now + t.hcTimeout) }
 
 def stopChecks (w : World) (tid : Nat) : World :=
   match getT w tid with
@@ -457,11 +463,11 @@ def hcInterval : Nat := 1000000000
 def hcTimeoutNs : Nat := 300000000
 
 /-- start a deploy / rollout-deploy thread: `findOrCreateService`, `NewLoadBalancer` -/
-def startDeploy (w : World) (cid : Nat) (svc host : Bytes) (slot : Bool) (targets : List Bytes) (dt drt : Nat) (rt : Nat := 0) : World :=
-  let mk (w : World) (oid : Nat) (trt : Nat) : World :=
+def startDeploy (w : World) (cid : Nat) (svc host : Bytes) (slot : Bool) (targets : List Bytes) (dt drt : Nat) (rt : Nat := 0) (hct : Nat := 300000000) : World :=
+  let mk (w : World) (oid : Nat) (trt thct : Nat) : World :=
     let lbId := w.next
     let w1 := { w with next := w.next + 1 }
-    let (w2, tids) := newTargets w1 lbId targets hcInterval hcTimeoutNs trt
+    let (w2, tids) := newTargets w1 lbId targets hcInterval thct trt
     let nl : Lb := { id := lbId, targets := tids }
     let w3 := { w2 with lbs := w2.lbs ++ [nl] }
     let c : Cmd := { id := cid, svc := svc, kind := CKind.deploy slot targets, drt := drt, phase := .waiting oid lbId (w.now + dt) }
@@ -469,17 +475,17 @@ def startDeploy (w : World) (cid : Nat) (svc host : Bytes) (slot : Bool) (target
   if slot then
     match installedObj w svc with
     | none => emit w s!"cmd c{cid} res=notFound"
-    | some o => mk w o.id o.rt      -- a rollout deploy creates its targets with the installed service's target options
+    | some o => mk w o.id o.rt o.hct      -- a rollout deploy creates its targets with the installed service's target options
   else
     match installedObj w svc with
     | some o =>
       -- CopyWithOptions: a new object sharing load balancers and gate, copying the split
-      let o' : Obj := { o with id := w.next, host := host, rt := rt }
-      mk { w with objs := w.objs ++ [o'], next := w.next + 1 } o'.id rt
+      let o' : Obj := { o with id := w.next, host := host, rt := rt, hct := hct }
+      mk { w with objs := w.objs ++ [o'], next := w.next + 1 } o'.id rt hct
     | none =>
       let g : Gate := { id := w.next }
-      let o' : Obj := { id := w.next + 1, name := svc, host := host, gate := g.id, rt := rt }
-      mk { w with gates := w.gates ++ [g], objs := w.objs ++ [o'], next := w.next + 2 } o'.id rt
+      let o' : Obj := { id := w.next + 1, name := svc, host := host, gate := g.id, rt := rt, hct := hct }
+      mk { w with gates := w.gates ++ [g], objs := w.objs ++ [o'], next := w.next + 2 } o'.id rt hct
 
 /-- `ServiceMap.Set`: one update of the table entry of that name -/
 def installTable (tbl : List (Bytes × Nat)) (name : Bytes) (oid : Nat) : List (Bytes × Nat) :=
@@ -546,6 +552,9 @@ def tgtStep (w : World) (t : Tgt) : Option World :=
   | .hanging u =>
     if !t.alive then some (setT w { t with loop := .idle })      -- cancelled: returns without a report
     else if u ≤ w.now then some (probeComplete w t.id false) else none
+  | .answering u =>
+    if !t.alive then some (setT w { t with loop := .idle })      -- cancelled: returns without a report
+    else if u ≤ w.now then some (probeComplete w t.id true) else none
   | _ => none
 
 /-- ticker: a tick that is due is put into the (capacity 1) channel -/
@@ -569,7 +578,10 @@ def settle : Nat → World → World
 /-- the next instant at which something happens by itself -/
 def nextTimer (w : World) : Option Nat :=
   let ts := w.tgts.filterMap (fun t => if t.alive then some t.nextTick else none) ++
-    w.tgts.filterMap (fun t => match t.loop with | .hanging u => if t.alive then some u else none | _ => none) ++
+    w.tgts.filterMap (fun t => match t.loop with
+      | .hanging u => if t.alive then some u else none
+      | .answering u => if t.alive then some u else none
+      | _ => none) ++
     w.reqs.filterMap (fun r => match r.phase with | .held _ _ d => some d | .inflight _ => r.rtDeadline | _ => none) ++
     w.cmds.flatMap (fun c => match c.phase with
       | .waiting _ _ d => [d]
@@ -595,7 +607,7 @@ inductive Op
   | hold (name : Bytes) (v : Bool)
   | arm (label : String)
   | disarm (label : String)
-  | deploy (c : Nat) (svc host : Bytes) (rollout : Bool) (targets : List Bytes) (dt drt : Nat) (rt : Nat := 0)
+  | deploy (c : Nat) (svc host : Bytes) (rollout : Bool) (targets : List Bytes) (dt drt : Nat) (rt : Nat := 0) (hct : Nat := 300000000)
   | pause (c : Nat) (svc : Bytes) (drt failAfter : Nat)
   | stop (c : Nat) (svc : Bytes) (drt : Nat) (msg : Bytes)
   | resume (c : Nat) (svc : Bytes)
@@ -683,7 +695,7 @@ def applyOp (w : World) : Op → World
   | .hold n v => settle fuel (setScript w n fun s => { s with hold := v })
   | .arm l => settle fuel { w with armed := if w.armed.contains l then w.armed else w.armed ++ [l] }
   | .disarm l => settle fuel { w with armed := w.armed.filter (· ≠ l) }
-  | .deploy c svc host rollout ts dt drt rt => settle fuel (startDeploy w c svc host rollout ts dt drt rt)
+  | .deploy c svc host rollout ts dt drt rt hct => settle fuel (startDeploy w c svc host rollout ts dt drt rt hct)
   | .pause c svc drt fa =>
     settle fuel (withInstalled w c svc fun o =>
       match getG w o.gate with
